@@ -3,25 +3,27 @@
    The numerics are arbitrary functions (comp_cache, comp_result); V is the type of array contents;
    histories are arbitrary lists over  Lij k | Mutate call i v | Clearcache | Reconfig c | SaveLoad.
    `rmode` (Fresh / Alias slot for each returned array) is derived from the current source by
-   harness/c14.py on every run: if all_fresh rmode the first theorem applies; for the modes of the
+   harness/c14.py on every run, and so is `smode` (per cached slot: does the GF calculator hand out a reused buffer);
+   if all_fresh rmode and stores_fresh smode the first theorem applies; for the modes of the
    current source (L0vv IS the cached Lvvvalues entry) the second and third give the failing history. *)
 From Coq Require Import List Arith Bool.
 From Onsager Require Import Model.Cache Proofs.Cache_proofs.
 Import ListNotations.
 
-(* If no returned array aliases a cached cell then, for ALL histories, every Lij returns what a
+(* If no returned array aliases a cached cell and every miss stores newly allocated arrays (the callee does not hand
+   out a reused buffer) then, for ALL histories, every Lij returns what a
    fresh calculator of the current configuration returns for that input. *)
 Theorem C14_history :
   forall (V : Type) (dV : V) (key ckey cfg : Type) (ck : key -> ckey)
          (ckeqb : ckey -> ckey -> bool) (cfgeqb : cfg -> cfg -> bool)
          (comp_cache : cfg -> ckey -> list V) (comp_result : cfg -> key -> list V -> list V)
-         (rmode : list mode),
+         (rmode : list mode) (smode : list bool),
     (forall a b : ckey, ckeqb a b = true -> a = b) ->
-    all_fresh rmode = true ->
+    all_fresh rmode = true -> stores_fresh smode = true ->
     forall (c0 : cfg) (ops : list (op V key cfg)),
       Forall (fun x : cfg * key * list V =>
                 snd x = pure V dV key ckey cfg ck comp_cache comp_result rmode (fst (fst x)) (snd (fst x)))
-             (run V dV key ckey cfg ck ckeqb cfgeqb comp_cache comp_result rmode (init V ckey cfg c0) ops).
+             (run V dV key ckey cfg ck ckeqb cfgeqb comp_cache comp_result rmode smode (init V ckey cfg c0) ops).
 Proof. exact history_independent. Qed.
 
 (* Current source: first returned array = cached slot 1.  After the caller overwrites it with v the
@@ -34,7 +36,7 @@ Theorem C14_refuted_witness :
     (forall (c : cfg) (x : ckey), length (comp_cache c x) = 3) ->
     forall (c0 : cfg) (k : key) (v : V),
     exists obs1 obs2 : list V,
-      run V dV key ckey cfg ck ckeqb cfgeqb comp_cache comp_result current_modes (init V ckey cfg c0)
+      run V dV key ckey cfg ck ckeqb cfgeqb comp_cache comp_result current_modes no_buffers (init V ckey cfg c0)
           [Lij k; Mutate 0 0 v; Lij k] = [(c0, k, obs1); (c0, k, obs2)] /\
       nth 0 obs1 dV = nth 1 (comp_cache c0 (ck k)) dV /\ nth 0 obs2 dV = v.
 Proof. exact alias_refuted. Qed.
@@ -51,8 +53,26 @@ Theorem C14_refuted :
     exists ops : list (op V key cfg),
       ~ Forall (fun x : cfg * key * list V =>
                   snd x = pure V dV key ckey cfg ck comp_cache comp_result current_modes (fst (fst x)) (snd (fst x)))
-               (run V dV key ckey cfg ck ckeqb cfgeqb comp_cache comp_result current_modes (init V ckey cfg c0) ops).
+               (run V dV key ckey cfg ck ckeqb cfgeqb comp_cache comp_result current_modes no_buffers (init V ckey cfg c0) ops).
 Proof. exact alias_refuted_history. Qed.
+
+(* A callee that reuses one buffer for the cached etav array: [Lij a; Lij b; Lij a] (different cache keys; the third
+   call is a cache hit; nothing is edited, every returned array is fresh) computes the third result from b's etav. *)
+Theorem C14_shared_buffer_refuted :
+  forall (V : Type) (dV : V) (key ckey cfg : Type) (ck : key -> ckey)
+         (ckeqb : ckey -> ckey -> bool) (cfgeqb : cfg -> cfg -> bool)
+         (comp_cache : cfg -> ckey -> list V) (comp_result : cfg -> key -> list V -> list V),
+    (forall a : ckey, ckeqb a a = true) ->
+    (forall (c : cfg) (x : ckey), length (comp_cache c x) = 3) ->
+    forall (c0 : cfg) (a b : key),
+    ckeqb (ck a) (ck b) = false -> ckeqb (ck b) (ck a) = false ->
+    exists obs1 obs2 obs3 : list V,
+      run V dV key ckey cfg ck ckeqb cfgeqb comp_cache comp_result fresh_modes eta_buffer (init V ckey cfg c0)
+          [Lij a; Lij b; Lij a] = [(c0, a, obs1); (c0, b, obs2); (c0, a, obs3)] /\
+      obs1 = pure V dV key ckey cfg ck comp_cache comp_result fresh_modes c0 a /\
+      obs3 = map (fun j => nth j (comp_result c0 a [nth 0 (comp_cache c0 (ck a)) dV; nth 1 (comp_cache c0 (ck a)) dV;
+                                                   nth 2 (comp_cache c0 (ck b)) dV]) dV) (seq 0 4).
+Proof. exact shared_buffer_refuted. Qed.
 
 Goal True. idtac "ASSUMPTIONS-OF C14_history". Abort.
 Print Assumptions C14_history.
@@ -60,3 +80,5 @@ Goal True. idtac "ASSUMPTIONS-OF C14_refuted_witness". Abort.
 Print Assumptions C14_refuted_witness.
 Goal True. idtac "ASSUMPTIONS-OF C14_refuted". Abort.
 Print Assumptions C14_refuted.
+Goal True. idtac "ASSUMPTIONS-OF C14_shared_buffer_refuted". Abort.
+Print Assumptions C14_shared_buffer_refuted.
